@@ -233,6 +233,7 @@ def split_double_boundary_edges_triangles(mesh : SurfaceMesh) -> SurfaceMesh:
                 subdv.split_face_as_fan(f)
         mesh.connectivity.clear() # the containers of `mesh` were edited in place
         mesh.clear_boundary_data()
+        mesh._is_triangular = mesh._is_quad = None # cached face-type answers: fanned polygons are triangles now
     return mesh
 
 ### Volume Subdivision ###
